@@ -98,7 +98,21 @@ func (mw MeshWriter) Write(mesh modeling.Mesh, writer io.Writer) error {
 			})
 		}
 		for _, p := range mesh.Float2Attributes() {
-			if claimedV2[p] || p == modeling.TexCoordAttribute {
+			if claimedV2[p] {
+				continue
+			}
+
+			if p == modeling.TexCoordAttribute {
+				// Triangle meshes store their texture coordinates per face.
+				// Anything else has no face element to put them in
+				if mesh.Topology() != modeling.TriangleTopology {
+					writers = append(writers, Vector2PropertyWriter{
+						ModelAttribute: p,
+						Type:           Float,
+						PlyPropertyX:   "s",
+						PlyPropertyY:   "t",
+					})
+				}
 				continue
 			}
 			writers = append(writers, Vector2PropertyWriter{
